@@ -455,7 +455,8 @@ def opaque_iterable(cx, st, name="value"):
     """An iterable argument: modelled as a list holding an arbitrary finite sequence (A-CB: finite,
     does not raise, distinct from `self`)."""
     S = z3.Const(name, SeqV)
-    r, st = alloc_list(cx, st, S)
+    r = VRef(cx.new_oid())
+    st = st.put(r.oid, HObj("list", S, None, None, {"opaque_iterable": True}))
     return r, S, st
 
 
